@@ -11,7 +11,7 @@
 #include "TinyJAMBU.h"
 
 static gbuf_t gST, gAR;
-static unsigned long long n_eval, n_free[4], n_state_bytes, n_clean, n_clean_bytes, n_arena_bytes, n_hist_ops;
+static unsigned long long n_dirty, n_eval, n_free[4], n_state_bytes, n_clean, n_clean_bytes, n_arena_bytes, n_hist_ops;
 
 static size_t ent_cb(void *ud, unsigned char *buf, size_t size)
 {
@@ -98,13 +98,24 @@ static void free_case(const args_t *a, long idx)
     }
 }
 
+/* A caller that passes `unsigned size` leaves the upper half of the 64-bit argument register undefined (the x86-64
+ * psABI does not require 32-bit arguments to be extended).  This call type puts recognisable garbage there; a
+ * library that hands the register on as a size_t without widening it wipes gigabytes. */
+typedef void (*clean_dirty_fn)(void *, unsigned long);
+static void call_clean(void *p, size_t size, int dirty)
+{
+    if (dirty) ((clean_dirty_fn)tinyjambu_clean)(p, ((unsigned long)0xA5A5u << 32) | (unsigned long)size);
+    else tinyjambu_clean(p, (unsigned)size);
+}
+
 static void clean_case(const args_t *a, long idx, unsigned off, size_t size)
 {
     rng_t r = rng_for(a->seed, 0xC1EA, (uint64_t)idx);
     size_t total = size + 64 + 32, i, bad_in = 0, bad_out = 0, firstbad = 0;
     uint8_t *ar, *ref;
-    int end_place = (idx % 3 == 0);
-    set_case("{\"h\":\"erase\",\"mode\":\"clean\",\"i\":%ld,\"offset\":%u,\"size\":%zu,\"end_guard\":%d}", idx, off, size, end_place);
+    int end_place = (idx % 3 == 0), dirty = (int)((idx / 3) & 1);
+    set_case("{\"h\":\"erase\",\"mode\":\"clean\",\"i\":%ld,\"offset\":%u,\"size\":%zu,\"end_guard\":%d,\"upper_register_half_dirty\":%d}", idx, off, size, end_place, dirty);
+    if (dirty) ++n_dirty;
     ++n_eval; ++n_clean; n_clean_bytes += size; n_arena_bytes += total;
     cls_add(mix64(off, size));
     if (idx % 997 == 0 || a->only >= 0) emit_sample();
@@ -113,8 +124,8 @@ static void clean_case(const args_t *a, long idx, unsigned off, size_t size)
         ar = gb_place(&gAR, total, PL_END, 0, 0, 0);
         for (i = 0; i < total; ++i) ar[i] = (uint8_t)(rnd64(&r) | 1);
         ref = (uint8_t *)malloc(total); memcpy(ref, ar, total);
-        if (GUARD_TRY()) { tinyjambu_clean(size || (idx & 1) ? ar + total - size : NULL, (unsigned)size); GUARD_END(); }
-        else { emit_viol("clean-overruns", "tinyjambu_clean(size=%zu) faulted at %p past the end of the range", size, g_fault_addr); free(ref); return; }
+        if (GUARD_TRY()) { call_clean(size || (idx & 1) ? ar + total - size : NULL, size, dirty); GUARD_END(); }
+        else { emit_viol(dirty ? "clean-overruns:size-not-widened" : "clean-overruns", "tinyjambu_clean(size=%zu%s) faulted at %p past the end of the range", size, dirty ? ", upper half of the argument register dirty" : "", g_fault_addr); free(ref); return; }
         for (i = 0; i < total; ++i) {
             int inside = i >= total - size;
             if (inside ? ar[i] != 0 : ar[i] != ref[i]) { if (!bad_in && !bad_out) firstbad = i; if (inside) ++bad_in; else ++bad_out; }
@@ -123,7 +134,8 @@ static void clean_case(const args_t *a, long idx, unsigned off, size_t size)
         ar = gb_place(&gAR, total, PL_MID, 0, 0, 0);
         for (i = 0; i < total; ++i) ar[i] = (uint8_t)(rnd64(&r) | 1);
         ref = (uint8_t *)malloc(total); memcpy(ref, ar, total);
-        tinyjambu_clean(ar + 32 + off, (unsigned)size);
+        if (GUARD_TRY()) { call_clean(ar + 32 + off, size, dirty); GUARD_END(); }
+        else { emit_viol(dirty ? "clean-overruns:size-not-widened" : "clean-overruns", "tinyjambu_clean(size=%zu%s) faulted at %p", size, dirty ? ", upper half of the argument register dirty" : "", g_fault_addr); free(ref); return; }
         for (i = 0; i < total; ++i) {
             int inside = i >= 32 + off && i < 32 + off + size;
             if (inside ? ar[i] != 0 : ar[i] != ref[i]) { if (!bad_in && !bad_out) firstbad = i; if (inside) ++bad_in; else ++bad_out; }
@@ -153,7 +165,7 @@ int main(int argc, char **argv)
     emit_stat("evaluations", n_eval); emit_stat("hash_free_readbacks", n_free[0]); emit_stat("hmac_free_readbacks", n_free[1]);
     emit_stat("hkdf_free_readbacks", n_free[2]); emit_stat("prng_free_readbacks", n_free[3]); emit_stat("state_bytes_read_back", n_state_bytes);
     emit_stat("history_ops_before_free", n_hist_ops); emit_stat("clean_calls", n_clean); emit_stat("clean_bytes_requested", n_clean_bytes);
-    emit_stat("arena_bytes_compared", n_arena_bytes);
+    emit_stat("arena_bytes_compared", n_arena_bytes); emit_stat("clean_calls_with_dirty_upper_register_half", n_dirty);
     finish();
     return 0;
 }
